@@ -20,4 +20,18 @@ CLAIMS = {
         "note": _STD_NOTE + " Undecided: executor threads calling done_job/reject_job more than once for one job.",
         "technique": "static analysis: CFG path enumeration + abstract interpretation over the job lifecycle graph; dominance; who-may-write",
     },
+    "C03": {
+        "text": "Writer/reader completeness of the recorded subtree-task set trusted by shallow hits: every CallNode writer is atomic with its "
+        "CallSubtreeTask rows or the reader rejects empty recorded sets; single gate for ULTIMATE results; live registry passed; subtree sets "
+        "propagated on all finaliser arms. Decided on every path/site of the source.",
+        "note": _STD_NOTE + " Undecided: that a particular history yields a particular answer; SQL transaction semantics are assumed (rows added before a commit become durable together).",
+        "technique": "static analysis: who-may-write enumeration, commit-point summaries, CFG dominance/must-pass, def-use of call arguments",
+    },
+    "C05": {
+        "text": "Every path that can hand one call's final result to another (pending-job table, CSE query, ultimate query) constrains the context on "
+        "all branches; path-sensitive check from query creation to consumption including the empty-context branch; callers pass context_hash; "
+        "tag recorded/hash computed under the same non-empty test.",
+        "note": _STD_NOTE + " Single-reduction (Evaluation) hits are exempt by argument: they return the unevaluated result, re-evaluated under the caller's context.",
+        "technique": "static analysis: CFG path enumeration between def and use of a query variable, key-shape agreement, call-site argument rules",
+    },
 }
